@@ -17,7 +17,7 @@ PROPERTY = "C03"
 LEVEL = "model_checking"
 CMPS = ["gt", "ge", "lt", "le", "ne", "eq"]
 LEAVES = [("var", f) for f in "bBhHiIqQ"] + [("local", "h"), ("local", "I")] + \
-         [("reg", k) for k in ("r", "sr", "w", "sw")] + [("field", 2, 3)] + [("hash", "i"), ("hash", "Q")]
+         [("reg", k) for k in ("r", "sr", "w", "sw")] + [("field", 2, 3)] + [("hash", "i"), ("hash", "Q"), ("hash", "q")]
 CONSTS = [0, 1, -1, 5, -7, 100, 127, 128, 255, 256, -129, 32767, 65535, 2 ** 31 - 1, -2 ** 31, 2 ** 31,
           2 ** 32 - 1, 2 ** 40, -(2 ** 40)]
 
